@@ -6,7 +6,7 @@
  "tier": "wip",
  "harness": "h_ss2_clear",
  "includes": ["resize"],
- "unwind": 9,
+ "unwind": 12,
  "unwind_reason": "clear_sparse_super2_last_group has no loop; the bound serves the harness' initialisation loops over the 6 ghost sets (unwinding assertions on)",
  "cbmc_flags": ["--object-bits", "12"],
  "backend": "cadical",
